@@ -4,7 +4,8 @@
      remove_knot_surf g2 [ou; ov] [ju; jv] = insert_knot_surf g [ou; ov] [ru - ju; rv - jv]      (and the latter does not raise)
    and the volume analogue.  Built on Proofs/KnotRemMultiDir.v (equal counts, commutation of the insertion stages) and the
    single-direction j <= r theorems of Proofs/KnotRemGeneralDir.v / KnotRemGeneralVol.v.
-   Part 2 (removal after a general refinement) is Proofs/KnotRemMoreRefine.v.  Details: Proofs/KnotRemMore.README. *)
+   Part 2 (removal after a general refinement, any order) is Proofs/KnotRemMoreRefine.v + Proofs/KnotRemMoreOrder.v.
+   Details: Proofs/KnotRemMore.README. *)
 From Coq Require Import List Reals Lra Lia Arith Bool ZArith.
 From NV Require Import Scalar.Ops Model.Common Model.Basis Model.KnotIns Model.InsertKnot Model.KnotRem
   Proofs.Boehm Proofs.BasisR Proofs.KnotInsR Proofs.KnotInsN Proofs.InsertKnotR Proofs.InsertNR Proofs.InsertDirR Proofs.InsertVolR
